@@ -287,7 +287,9 @@ fn c02_symbol_strength_of_reads_binding_and_common_size() {
     let align: u64 = kani::any();
     sym.st_value.set(object::LittleEndian, align);
     let shndx = sym.st_shndx.get(object::LittleEndian);
-    kani::assume(shndx != 0xfff2 || (align.is_power_of_two() && align <= 0x10000));
+    // ... and a COMMON symbol whose size rounded up to that alignment does not fit in 64 bits is
+    // malformed (rejected since fix 8812840; C22's symbol-table obligation pins that down)
+    kani::assume(shndx != 0xfff2 || (align.is_power_of_two() && align <= 0x10000 && size <= u64::MAX - (align - 1)));
     let got = SymbolStrength::of(&sym);
     let bind = sym.st_info >> 4;
     let want = if bind == 2 {
